@@ -5,7 +5,7 @@ from fractions import Fraction
 
 from pbt import gen
 from pbt.engine import Outcome, Violation
-from pbt.harness import Session
+from pbt.harness import Unattributable, Session
 
 PROP = "C12"
 RULE = (
@@ -158,6 +158,8 @@ def check_case(case):
             if rich:
                 classes.append("opening-among-distinct-rewards")
             return Outcome(nontrivial=rich, classes=classes, rounds=T)
+    except Unattributable:
+        return Outcome(aborted="point-matches-several-cells", classes=classes)
     except Violation as v:
         return Outcome(violation=v.as_dict(), classes=classes, rounds=v.round or 0)
 
